@@ -54,8 +54,7 @@ package search
 //@   property C09
 //@   trusted
 //@   ensures addCalls == old(addCalls) + 1 && addNode == nd && addRoute == route && addItem == item && result == addErr
-//@   modifies addCalls, addNode, addRoute, addItem, addErr
-//@   flag havoc_heap
+//@   modifies addCalls, addNode, addRoute, addItem, addErr, node.item, allmaps(nd.children[0])
 //@   allocates
 
 // nextHit[n][route] / nextItem / nextParams: what the search below node n answers for the remaining route
@@ -69,6 +68,23 @@ package search
 //@   modifies result.Item, result.Params
 //@   allocates
 
+// what clients of the tree (the router) may say about it
+//@ spec TreeOK(t *Tree) bool = t != nil && t.root != nil
+//@ spec RootOf(t *Tree) any = t.root
+//@ spec Hit(t *Tree, p string) bool = len(p) > 0 && p[0] == '/' && nextHit[t.root][p[1:]]
+//@ spec HitItem(t *Tree, p string) any = nextItem[t.root][p[1:]]
+
+//@ func NewTree
+//@   property C09
+//@   ensures TreeOK(result) && fresh(result)
+//@   modifies nothing
+//@   allocates
+//@ func newNode
+//@   property C09
+//@   ensures result != nil && fresh(result) && result.item == item
+//@   modifies nothing
+//@   allocates
+
 // Add: a route not starting at the root or an empty item is rejected before the tree is touched; otherwise the whole
 // remaining route and the item go to the worker once, and its duplicate verdicts are reported (never swallowed).
 //@ func (t *Tree) Add
@@ -78,6 +94,8 @@ package search
 //@   ensures  implies(len(route) > 0 && route[0] == '/' && item == nil, result == errEmptyItem && addCalls == old(addCalls))
 //@   ensures  implies(len(route) > 0 && route[0] == '/' && item != nil, addCalls == old(addCalls) + 1 && addNode == old(t.root) && addRoute == route[1:] && addItem == item)
 //@   ensures  implies(len(route) > 0 && route[0] == '/' && item != nil, (result == nil) == (addErr == nil))
+//@   modifies addCalls, addNode, addRoute, addItem, addErr, node.item, allmaps(t.root.children[0])
+//@   allocates
 
 // Search: only rooted routes are searched, from the root, with the leading slash removed; the answer is the worker's.
 //@ func (t *Tree) Search
